@@ -1102,6 +1102,10 @@ def prepare(sp, case):
 
 def run(ctx):
     ctx.source_hash("sigpy/prox.py", "sigpy/thresh.py")
+    # tie by translation (DESIGN 2.8): gen/Gen_prox.v is regenerated from thresh.py / prox.py (translate_all job "prox") and
+    # compiled; its lemmas gen_*_ok state generated == hand model (model/Prox.v).  notes/translate_prox.md
+    from tools import translate_prox
+    tie_broken = translate_prox.tie(ctx)     # obligations "translate:sigpy/thresh.py (...); sigpy/prox.py (...)", "tie:generated ... == hand model"
     proof_ok = ctx.prove("Prop_C11.v")
     sp = core.import_sigpy()
     rng = ctx.rng
@@ -1154,6 +1158,27 @@ def run(ctx):
         if lprobs:
             bad_layout += 1
         probs = probs + lprobs
+        # (a'') real-valued y handed over in a REAL dtype while the operator's parameters (ball centres, biases, unitary
+        # matrices, nested blocks) are complex: the minimiser is the same point as for the same values stored as complex
+        dc = d["case"]
+        if dc["kind"] == "prox" and dc["cplx"]:
+            xr = np.ascontiguousarray(np.real(d["x"]))
+            try:
+                Pobj = build(sp, dc["spec"], True)
+                o_r = np.asarray(Pobj(alpha_py(dc), xr.copy()))
+                o_c = np.asarray(build(sp, dc["spec"], True)(alpha_py(dc), xr.astype(np.complex128)))
+                sc = max(1.0, float(np.max(np.abs(o_c))) if o_c.size else 1.0)
+                hk = "storage:real-dtype-y-with-complex-parameters"
+                ctx.coverage["histogram"][hk] = ctx.coverage["histogram"].get(hk, 0) + 1
+                if o_r.shape != o_c.shape or not np.all(np.abs(o_r - o_c) <= 1e-10 * sc):
+                    probs.append(("real-dtype-storage", {"input_real_dtype": xr.ravel().tolist(), "expected": enc(o_c, True), "expected_shape": list(o_c.shape),
+                                                         "observed": enc(o_r.astype(np.complex128), True), "observed_shape": list(o_r.shape),
+                                                         "observed_dtype": str(o_r.dtype)}))
+            except Exception:      # noqa
+                # L2Reg with a complex centre updates its real-dtype input in place and numpy refuses the cast: the call is
+                # rejected, not answered wrongly (recorded, not alarmed; DESIGN 7.2)
+                hk = "storage:real-dtype-y-with-complex-parameters:rejected"
+                ctx.coverage["histogram"][hk] = ctx.coverage["histogram"].get(hk, 0) + 1
         d["probs"] = probs
         if probs:
             bad_oracle.append(d)
@@ -1213,9 +1238,9 @@ def run(ctx):
                        "observed": enc(d["out"], d["case"]["cplx"]), "observed_shape": list(d["out"].shape),
                        "coq_check": d["expr"][:4000]},
                       found_input=id(d) in bad_idx, signature=sig)
-    if not proof_ok or not corr_ok:
+    if not proof_ok or not corr_ok or tie_broken:
         if not ctx.violations:
-            broken = getattr(ctx, "broken_proof", {"theorem": "corr:coq-run", "log": "; ".join(ctx.notes)[-2000:]})
+            broken = getattr(ctx, "broken_proof", tie_broken or {"theorem": "corr:coq-run", "log": "; ".join(ctx.notes)[-2000:]})
             ctx.violation("proof obligation no longer checks: %s" % broken.get("theorem"),
                           {"kind": "proof", "broken": broken}, found_input=False, signature="C11:proof")
     ctx.trusted += TRUSTED
@@ -1252,7 +1277,11 @@ def replay(obj):
 TRUSTED = [
     "Coq 8.16.1 kernel + vm_compute on PrimFloat (no native_compute, no extraction)",
     "hand model coq/model/Prox.v of thresh.py / prox.py (numba @vectorize kernels read as per-element functions; numpy "
-    "broadcasting of scalar-or-array operands; sort/cumsum modelled by insertion sort and a sequential scan), tied by this run's correspondence",
+    "broadcasting of scalar-or-array operands; sort/cumsum modelled by insertion sort and a sequential scan), tied by this run's correspondence "
+    "AND by translation: tools/translate_prox.py regenerates the definitions from the source text of thresh.py / prox.py on every run "
+    "(gen/Gen_prox.v) and the lemmas gen_*_ok prove them equal to the hand model; trusted there: the translator's readings of numpy "
+    "(notes/translate_prox.md: elementwise fusion, broadcasting = sv_get, ravel/reshape/copy = identity on values, sort()[::-1] = sort_desc, "
+    "cumsum/arange/flatnonzero().max() = left-to-right scan, keepdims sum = sum over equal group keys, xp == np on the CPU)",
     "numpy.linalg.eigh as an oracle: (w, V) with V unitary and (M+M^H)/2 = V diag(w) V^H; the recorded answer is checked against "
     "this specification inside Coq on every PSD case (a test of the assumption, not a proof)",
     "UnitaryTransform: the operator A is represented by its dense matrix obtained by applying the implementation's A to basis vectors; "
